@@ -713,6 +713,15 @@ class CallMixin:
         if name == 'id':
             if isinstance(args[0], VRef):
                 return VInt(args[0].z)
+            if isinstance(args[0], (VOpaque, VCallable)):
+                # module-level singletons / classes: a fixed identity distinct from every heap object and every value
+                import zlib
+                return VInt(-(10**9) - zlib.crc32(repr((args[0].__dict__.get('py'), args[0].__dict__.get('cls'),
+                                                         args[0].__dict__.get('name'))).encode()))
+            if isinstance(args[0], (VInt, VBool, VNone, VSeq, VTuple)):
+                v = self.fresh_int('id')
+                self.assume(z3.And(v > -(10**9), v < 0))     # identities of plain values never coincide with singletons / objects
+                return VInt(v)
             raise Unsupported("id() of non-object")
         if name in ('sum', 'len') and isinstance(args[0], VOpaque) and args[0].tag == 'dropped':
             return VOpaque(None, 'dropped')
